@@ -31,8 +31,40 @@ var last outcome
 // encodeBoth encodes x (anything with Size/Encode/EncodeSW) and checks Size()==bytes written for both
 // encoders, that EncodeSW into a buffer of exactly Size() bytes does not overflow and fills it, and that
 // both outputs are identical.
-func encodeBoth(what string, size func() uint64, enc func(*bytes.Buffer) error, encSW func(bits.SliceWriter) error, optimise bool) ([]byte, *harness.Fail) {
+func encodeBoth(what string, size func() uint64, enc func(*bytes.Buffer) error, encSW func(bits.SliceWriter) error, optimise, swFirst bool) ([]byte, *harness.Fail) {
 	before := size()
+	if swFirst {
+		// the slice-writer path sees the structure first (trun optimisation happens inside it); the buffer has
+		// the size announced beforehand, which is never smaller than what is needed
+		sw := bits.NewFixedSliceWriter(int(before))
+		errS := encSW(sw)
+		if errS == nil {
+			errS = sw.AccError()
+		}
+		after := size()
+		if errS != nil {
+			return nil, nil // refused: no claim (same rule as for Encode below)
+		}
+		if uint64(sw.Len()) != after {
+			return nil, harness.Failf("C02|"+what+"|bytes written by EncodeSW differ from Size()", "written %d, Size() %d", sw.Len(), after)
+		}
+		if !optimise && before != after {
+			return nil, harness.Failf("C02|"+what+"|Size() changed by EncodeSW without optimisation", "before %d after %d", before, after)
+		}
+		first := append([]byte{}, sw.Bytes()...)
+		var buf bytes.Buffer
+		if err := enc(&buf); err != nil {
+			return nil, harness.Failf("C02|"+what+"|Encode fails after a successful EncodeSW", "%v", err)
+		}
+		if !bytes.Equal(buf.Bytes(), first) {
+			return nil, harness.Failf("C02|"+what+"|Encode after EncodeSW gives different bytes", "%d vs %d bytes, first difference at %d", buf.Len(), len(first), firstDiff(buf.Bytes(), first))
+		}
+		sw2 := bits.NewFixedSliceWriter(int(size()))
+		if err := encSW(sw2); err != nil || sw2.AccError() != nil || !bytes.Equal(sw2.Bytes(), first) {
+			return nil, harness.Failf("C02|"+what+"|second EncodeSW differs from the first", "err %v/%v, %d vs %d bytes, first difference at %d", err, sw2.AccError(), sw2.Len(), len(first), firstDiff(sw2.Bytes(), first))
+		}
+		return first, nil
+	}
 	var buf bytes.Buffer
 	errW := enc(&buf)
 	after := size()
@@ -62,6 +94,18 @@ func encodeBoth(what string, size func() uint64, enc func(*bytes.Buffer) error, 
 	return buf.Bytes(), nil
 }
 
+func firstDiff(a, b []byte) int {
+	for i := 0; i < len(a) && i < len(b); i++ {
+		if a[i] != b[i] {
+			return i
+		}
+	}
+	if len(a) < len(b) {
+		return len(a)
+	}
+	return len(b)
+}
+
 func checkSizes(c boxprop.Case) *harness.Fail {
 	last = outcome{}
 	in := c.Bytes()
@@ -86,7 +130,7 @@ func checkSizes(c boxprop.Case) *harness.Fail {
 	var outTree []byte
 	for _, b := range d.TopBoxes() {
 		b := b
-		out, f := encodeBoth(b.Type(), b.Size, func(w *bytes.Buffer) error { return b.Encode(w) }, b.EncodeSW, false)
+		out, f := encodeBoth(b.Type(), b.Size, func(w *bytes.Buffer) error { return b.Encode(w) }, b.EncodeSW, false, c.SWFirst)
 		if f != nil {
 			return f
 		}
@@ -119,7 +163,7 @@ func checkSizes(c boxprop.Case) *harness.Fail {
 	f := d.File
 	total := uint64(0)
 	if f.Init != nil {
-		out, fl := encodeBoth("InitSegment", f.Init.Size, func(w *bytes.Buffer) error { return f.Init.Encode(w) }, f.Init.EncodeSW, false)
+		out, fl := encodeBoth("InitSegment", f.Init.Size, func(w *bytes.Buffer) error { return f.Init.Encode(w) }, f.Init.EncodeSW, false, c.SWFirst)
 		if fl != nil {
 			return fl
 		}
@@ -141,7 +185,7 @@ func checkSizes(c boxprop.Case) *harness.Fail {
 			if c.Opt {
 				fr.EncOptimize = mp4.OptimizeTrun
 			}
-			out, fl := encodeBoth("Fragment", fr.Size, func(w *bytes.Buffer) error { return fr.Encode(w) }, fr.EncodeSW, c.Opt)
+			out, fl := encodeBoth("Fragment", fr.Size, func(w *bytes.Buffer) error { return fr.Encode(w) }, fr.EncodeSW, c.Opt, c.SWFirst)
 			if fl != nil {
 				return fl
 			}
@@ -149,7 +193,7 @@ func checkSizes(c boxprop.Case) *harness.Fail {
 				return nil
 			}
 		}
-		out, fl := encodeBoth("MediaSegment", seg.Size, func(w *bytes.Buffer) error { return seg.Encode(w) }, seg.EncodeSW, c.Opt)
+		out, fl := encodeBoth("MediaSegment", seg.Size, func(w *bytes.Buffer) error { return seg.Encode(w) }, seg.EncodeSW, c.Opt, c.SWFirst)
 		if fl != nil {
 			return fl
 		}
